@@ -157,13 +157,12 @@ fn load_known() -> Known {
 
 impl Known {
     fn matches(&self, prop: &str, viol: &Value) -> Option<&Value> {
+        let oracle = viol["oracle"].as_str().unwrap_or("");
+        let tag = viol["tag"].as_str().unwrap_or("");
         self.open.iter().find(|f| {
-            f["property"].as_str() == Some(prop)
-                && f["oracle"].as_str() == viol["oracle"].as_str()
-                && match f["tag"].as_str() {
-                    Some(tag) => Some(tag) == viol["tag"].as_str(),
-                    None => false,
-                }
+            let oracle_ok = f["oracle"].as_str() == Some(oracle) || f["oracles"].as_array().map(|a| a.iter().any(|o| o.as_str() == Some(oracle))).unwrap_or(false);
+            let tag_ok = f["tag"].as_str() == Some(tag) || f["tag_suffix"].as_str().map(|suffix| !suffix.is_empty() && tag.ends_with(suffix)).unwrap_or(false);
+            f["property"].as_str() == Some(prop) && oracle_ok && tag_ok
         })
     }
 }
@@ -295,12 +294,14 @@ fn finish(prop: &str, tier: &str, base_seed: u64, agg: Agg, started: Instant) ->
         groups.entry((v["oracle"].as_str().unwrap_or("").to_string(), v["tag"].as_str().unwrap_or("").to_string())).or_default().push((*seed, v.clone()));
     }
     let mut known_lines = Vec::new();
+    let mut known_hits: BTreeMap<String, usize> = BTreeMap::new();
     let mut violation_lines = Vec::new();
     let mut reported = 0;
     for ((oracle, tag), items) in &groups {
         let (seed, first) = &items[0];
         if let Some(f) = known.matches(prop, first) {
-            known_lines.push(format!("KNOWN-FINDING: property={prop} {} [oracle={oracle} tag={tag} seeds_hit={}]", f["what"].as_str().unwrap_or(""), items.len()));
+            let what = f["what"].as_str().unwrap_or("").to_string();
+            *known_hits.entry(what).or_insert(0) += items.len();
             continue;
         }
         if reported >= 4 {
@@ -341,6 +342,9 @@ fn finish(prop: &str, tier: &str, base_seed: u64, agg: Agg, started: Instant) ->
         println!("# a recorded history fails again: {what}");
         violation_lines.push(format!("VIOLATION property={prop} replay={file}"));
         exit = 1;
+    }
+    for (what, hits) in &known_hits {
+        known_lines.push(format!("KNOWN-FINDING: property={prop} {what} [observed {hits} times in this run]"));
     }
     known_lines.sort();
     known_lines.dedup();
